@@ -424,6 +424,11 @@ func senGen(args []string) {
 		n++
 		strCase(s, n, "reserved")
 	}
+	// a sign-led string followed by a quoted one: the reader takes "+" as string concatenation
+	for k, t := range []M{aArr(aStr("+"), aStr("a b")), aArr(aInt(1), aStr("+"), aStr("a b")), aArr(aStr("x"), aStr("+"), aStr("a b")),
+		aObj("a", aStr("x"), "b", aStr("+"), "c", aStr("a b")), aArr(aStr("+a"), aStr("")), aArr(aArr(), aStr("+"), aStr("a b"))} {
+		emit(t, sopts(k), []pcfg{pcfgOf(k + 1)}, "plus")
+	}
 	// (4) numbers
 	for _, i := range append([]int64{0}, intLeaves...) {
 		for ci, t := range []M{aInt(i), aArr(aInt(i), aInt(i)), aObj("k", aInt(i))} {
